@@ -70,7 +70,7 @@ def registry():
                 '_solve_non_UTPM_A', '_solve_non_UTPM_x', '_iouter', '_diag']
     PB_DIMS = ['_dot_pullback', '_outer_pullback', '_inv_pullback', '_solve_pullback', '_qr_rectangular_pullback', '_qr_pullback', '_qr_full_pullback', '_diag_pullback']
     reg['C03'] = dict(
-        rules=[T.rule_pb_sig, T.rule_pb_acc, T.rule_pb_out, T.rule_pb_view, T.rule_pb_ro, T.rule_pb_complete, T.rule_pb_pair, T.rule_setitem_copy, T.rule_pb_setitem_clear, T.rule_pb_rebind, T.rule_pb_dead, S.rule_const_all_coeffs, T.rule_pb_threshold, T.rule_pb_propagate, T.rule_pb_each, DM.rule_dims_kernels(PB_DIMS, 'C03.dims', 120), DM.rule_dims_wrappers(['pb_dot', 'pb_outer', 'pb_solve', 'pb_inv', 'pb_qr', 'pb_qr_full'], 'C03.dims-wrap', 50)] + ([G.rule_pb_grade('C03')] if G is not None else []),
+        rules=[T.rule_pb_sig, T.rule_pb_acc, T.rule_pb_out, T.rule_pb_view, T.rule_pb_ro, T.rule_pb_complete, T.rule_pb_pair, T.rule_setitem_copy, T.rule_pb_setitem_clear, T.rule_pb_rebind, T.rule_pb_dead, S.rule_const_all_coeffs, T.rule_pb_threshold, T.rule_pb_propagate, T.rule_pb_each, S.rule_int_index, DM.rule_dims_kernels(PB_DIMS, 'C03.dims', 120), DM.rule_dims_wrappers(['pb_dot', 'pb_outer', 'pb_solve', 'pb_inv', 'pb_qr', 'pb_qr_full'], 'C03.dims-wrap', 50)] + ([G.rule_pb_grade('C03')] if G is not None else []),
         explanation='Static decision of the tracer<->pullback calling protocol every traced program depends on. '
                     'Decides: existence/arity/keyword/permutation agreement between each recorder site and UTPM.pb_<name> '
                     '(R-pb-sig); accumulate-never-overwrite into adjoint storage (R-pb-acc, via the E1 alias/effect analysis '
@@ -176,7 +176,7 @@ def registry():
             assumptions=['affine index domain with Fourier-Motzkin style bound elimination; violations are reported only with a concrete witness valuation'])
     if S is not None and G is not None:
         reg['C10'] = dict(
-            rules=[S.rule_cmp, S.rule_shape, lambda ctx: S.rule_base(ctx, None, 'C10.base'), S.rule_dispatch, S.rule_linalg_kinds, S.rule_kinds, S.rule_kernel_dtype, S.rule_shape_arg, S.rule_transpose_axes, S.rule_wrap_order, S.rule_select_zeroth],
+            rules=[S.rule_cmp, S.rule_shape, lambda ctx: S.rule_base(ctx, None, 'C10.base'), S.rule_dispatch, S.rule_linalg_kinds, S.rule_kinds, S.rule_kernel_dtype, S.rule_shape_arg, S.rule_transpose_axes, S.rule_wrap_order, S.rule_select_zeroth, S.rule_lib_api],
             explanation='Static decision of the NumPy-agreement clauses that are visible in the shape of the code: comparison methods return '
                         'numpy.all(<own operator>(zeroth coefficients)) (C10.cmp); shape/size/ndim/len read one coefficient slice '
                         '(C10.shape); every kernel computes its zeroth coefficient with the NumPy/SciPy function it is named after '
@@ -185,7 +185,7 @@ def registry():
                         'every parameter (C10.dispatch); zeros/ones wrap every integer scalar shape NumPy accepts before concatenating it to (D, P) (C10.shape-arg). NOT decided: equality of values/shapes with NumPy for all arguments.',
             assumptions=['the installed numpy/scipy namespaces are consulted for the existence of fallback functions (no algopy code is run)'])
         reg['C13'] = dict(
-            rules=[S.rule_index, S.rule_view, S.rule_map, G.rule_grade('C13'), S.rule_sym, S.rule_alloc, S.rule_shape_arg, S.rule_transpose_axes],
+            rules=[S.rule_index, S.rule_view, S.rule_map, G.rule_grade('C13'), S.rule_sym, S.rule_alloc, S.rule_shape_arg, S.rule_transpose_axes, S.rule_int_index],
             explanation='Static decision of the slice-wise/view clauses: the index prefixes of __getitem__/__setitem__ (C13.index); view operations '
                         'return storage of their argument with no copy on the path, value operations return fresh data (C13.view, E1 alias '
                         'analysis); trace/tril/triu/tile/fft/ifft apply the NumPy function of their name to slice [d,p] in full d,p loops and '
